@@ -583,7 +583,7 @@ class ReadParquet(PartitionsFiltered, BlockwiseIO):
     def _filter_passthrough_available(self, parent, dependents):
         return (
             super()._filter_passthrough_available(parent, dependents)
-            and (isinstance(parent.predicate, (LE, GE, LT, GT, EQ, NE, And, Or)))
+            and (isinstance(parent.predicate, (LE, GE, LT, GT, EQ, And, Or)))
             and _DNF.extract_pq_filters(self, parent.predicate)._filters is not None
         )
 
@@ -1505,7 +1505,9 @@ class _DNF:
     @classmethod
     def extract_pq_filters(cls, pq_expr: ReadParquet, predicate_expr: Expr) -> _DNF:
         _filters = None
-        if isinstance(predicate_expr, (LE, GE, LT, GT, EQ, NE)):
+        # ``!=`` can't be handed to the reader: pyarrow drops the rows where
+        # the column is null, pandas keeps them
+        if isinstance(predicate_expr, (LE, GE, LT, GT, EQ)):
             if (
                 not isinstance(predicate_expr.right, Expr)
                 and isinstance(predicate_expr.left, Projection)
